@@ -347,7 +347,22 @@ class BehavioralRTLIRToVVisitorL1( bir.BehavioralRTLIRNodeVisitor ):
       # Manipulate the slicing string to avoid indexing on a sliced signal
       if not _one_bit:
         l, col, r = value.rfind('['), value.rfind(':'), value.rfind(']')
-        if -1 < l < col < r:
+        if getattr( node.value, 'base', None ) and getattr( node.value, 'size', None ):
+          # indexed part select x[base +: size]: the top bit is x[base + size-1]
+          col = value.rfind('+:')
+          # the bracket that matches the final ']' (the base may contain selects itself)
+          l, depth = -1, 0
+          for i in range( r-1, -1, -1 ):
+            if value[i] == ']': depth += 1
+            elif value[i] == '[':
+              if depth == 0:
+                l = i
+                break
+              depth -= 1
+          if -1 < l < col < r:
+            _value = f"{value[:l]}[({value[l+1:col].strip()}) + {int(node.value.size)-1}]"
+            return one_bit_template.format( **locals() )
+        elif -1 < l < col < r:
           _value = value[:col] + ']'
           return one_bit_template.format( **locals() )
 
